@@ -72,6 +72,9 @@ def _(c):
     c.assumed_reason = "Node.find_all/_search: generator + lambdas over re; checked by the bounded tier (native/props/c09.py)"
     c.ensures("fresh result list", lambda x: And(x.r != LNONE, fresh_list(x, x.r), unchanged_lists(x)))
     c.may_raise("Callback", ensures=None)
+    _both = lambda x: x.a.tag("data") != "none" and x.a.tag("data_id") != "none"  # noqa: E731
+    _idpath = lambda x: x.a.tag("data") != "none" or x.a.tag("data_id") != "none"  # noqa: E731
+    c.raises("AssertionError", when=lambda x: z3.BoolVal(_both(x) or (_idpath(x) and x.a.tag("match") != "none")), ensures=unchanged_all, props=("C13",))
 
 
 @contract(NQ + "find_first", props=("C09",))
@@ -83,6 +86,9 @@ def _(c):
     c.assumed_reason = "see Node.find_all"
     c.ensures("pre-existing lists unchanged", lambda x: unchanged_lists(x))
     c.may_raise("Callback", ensures=None)
+    _both = lambda x: x.a.tag("data") != "none" and x.a.tag("data_id") != "none"  # noqa: E731
+    _idpath = lambda x: x.a.tag("data") != "none" or x.a.tag("data_id") != "none"  # noqa: E731
+    c.raises("AssertionError", when=lambda x: z3.BoolVal(_both(x) or (_idpath(x) and x.a.tag("match") != "none")), ensures=unchanged_all, props=("C13",))
 
 
 @contract(TQ + "find_all", props=("C02", "C09"))
